@@ -302,6 +302,97 @@ def path_robot(c, job):
             info=dict(nsetup=len(log)))
 
 
+def path_more(c, job):
+    """Subclass narrowing an inherited annotation; constructor parameters that carry defaults."""
+    import magicbot
+    import ntcore
+    import wpilib
+    from magicbot import MagicRobot
+
+    class E:
+        ds_attached = True
+
+        def fms_attached(self):
+            return False
+
+        def now_us(self):
+            return 0
+
+        def now_s(self):
+            return 0.0
+
+        def sd_get_string(self, k, d):
+            return d
+
+    wpilib.ENV = E()
+    ntcore.reset()
+    wpilib.SmartDashboard.data.clear()
+    lcm.set_auto_pkg(False)
+    what = job["what"]
+    if what == "narrowed":
+        # base: motor: Dep ; subclass: motor: SubDep ; the robot object satisfies the base type only / the subclass type
+        holds_sub = bool(c.boolean("robot_holds_subclass_instance"))
+        obj = SubDep() if holds_sub else Dep()
+
+        class BaseComp:
+            motor: Dep
+
+            def execute(self):
+                pass
+
+        class Comp(BaseComp):
+            motor: SubDep
+
+        def createObjects(self):
+            self.motor = obj
+
+        r = type("Robot", (MagicRobot,), {"__annotations__": {"c1": Comp}, "createObjects": createObjects})()
+        try:
+            r.robotInit()
+            out = "ok"
+        except (magicbot.inject.MagicInjectError, magicbot.magicrobot.MagicInjectError):
+            out = "inject-error"
+        except Exception as e:
+            out = "other:" + repr(e)[:80]
+        c.reach("narrowed-annotation")
+        c.prove("C08.robot re-annotated-attribute-checked-against-most-derived-type", out == ("ok" if holds_sub else "inject-error"),
+                info=dict(holds_sub=holds_sub, out=out))
+        if out == "ok":
+            c.prove("C08.robot attribute-is-the-robot-object", r.c1.motor is obj)
+    else:
+        # constructor parameter with a default value: still injected (plain name, then '<component>_<param>'), missing -> error
+        where = ["plain", "prefixed", "absent"][c.choose("where", 3)]
+        enc = Dep()
+
+        class Arm:
+            def __init__(self, encoder: Dep = None):
+                self.encoder = encoder
+
+            def execute(self):
+                pass
+
+        def createObjects(self):
+            if where == "plain":
+                self.encoder = enc
+            elif where == "prefixed":
+                self.arm_encoder = enc
+
+        r = type("Robot", (MagicRobot,), {"__annotations__": {"arm": Arm}, "createObjects": createObjects})()
+        try:
+            r.robotInit()
+            out = "ok"
+        except (magicbot.inject.MagicInjectError, magicbot.magicrobot.MagicInjectError):
+            out = "inject-error"
+        except Exception as e:
+            out = "other:" + repr(e)[:80]
+        c.reach("ctor-default")
+        if where == "absent":
+            c.prove("C08.robot missing-or-mistyped-dependency-fails-at-startup", out == "inject-error", info=dict(where=where, out=out))
+        else:
+            c.prove("C08.robot ctor-parameters-injected", out == "ok" and r.arm.encoder is enc, info=dict(where=where, out=out))
+    c.summary = dict(kind="more", what=what, out=out)
+
+
 def path_twins(c, job):
     """Two components of the same class whose instances differ in what __init__ already set."""
     import magicbot
@@ -388,7 +479,7 @@ class C08(Spec):
     def jobs(self, tier):
         j = [dict(kind="unit", ann=a, private=p) for a in ("Dep", "int", "str", "list[int]") for p in (False, True)]
         j += [dict(kind="unit", ann=a, private=False) for a in ("Optional[Dep]", "Union[int,float]", "ClassVar[int]")]
-        j += [dict(kind="ctor"), dict(kind="robot"), dict(kind="twins")]
+        j += [dict(kind="ctor"), dict(kind="robot"), dict(kind="twins"), dict(kind="more", what="narrowed"), dict(kind="more", what="ctor-default")]
         return j
 
     def bounds(self, tier):
@@ -397,10 +488,10 @@ class C08(Spec):
 
     def reach_required(self, tier):
         return ["untouched", "prefixed-lookup", "absent", "mistyped", "delivered", "falsy-delivered", "ctor-private", "startup-fails", "startup-ok",
-                "inherited-annotations", "ctor-injection", "twins", "inherited-robot", "preset-non-class-annotation"]
+                "inherited-annotations", "ctor-injection", "twins", "inherited-robot", "preset-non-class-annotation", "narrowed-annotation", "ctor-default"]
 
     def path_fn(self, c, job):
-        return dict(unit=path_unit, ctor=path_ctor, robot=path_robot, twins=path_twins)[job["kind"]](c, job)
+        return dict(unit=path_unit, ctor=path_ctor, robot=path_robot, twins=path_twins, more=path_more)[job["kind"]](c, job)
 
     def twin(self, tier):
         def tfn(c, job):
